@@ -637,6 +637,13 @@ def present_stack(st, top, noise, rng):
     if rng.random() < 0.5:
         b.rotate(float(rng.uniform(0, 360)), rng.normal(size=3), rotate_cell=True)
         b.positions += rng.uniform(-5, 5, 3)
+    r = rng.random()
+    if r < 0.4:
+        # rigid translation of the whole stack, often much larger than the vacuum: a
+        # vacuum-padded stack then lies partly or entirely outside its cell, below the
+        # bottom face or above the top face (C03_g7: only atoms *below* the face mattered)
+        amp = 10.0 if r < 0.15 else 30.0
+        b.positions += rng.uniform(-amp, amp, 3)
     return b, SA, SB
 
 
